@@ -621,6 +621,11 @@ def record(col, case, why, observed, sig):
     Failures no selector recognises are always kept."""
     f = {'case': case, 'why': why, 'observed': jsonable(observed), 'sig': sig}
     col.count('failing_observations')
+    runner_classifier = getattr(col, 'classifier', None)
+    if runner_classifier is not None and runner_classifier(f) is not None:
+        # the runner attributes (and bounds) failures of accepted known findings itself
+        col.fail(case, why, f['observed'], sig)
+        return
     cls = None
     for name, sel in KNOWN_SELECTORS.items():
         try:
